@@ -282,6 +282,7 @@ def connAttempts (afterUnprepared : Bool) : List Char → List Attempt
   | 'o' :: _ => [.fail "DbError:4097"]
   | 'r' :: _ => [.fail "DbError:4608"]
   | 'R' :: _ => [.fail "DbError:4608"]
+  | 'W' :: _ => [.fail "DbError:4352"]
   | 's' :: _ => [.fail "DbError:0"]
   | 'c' :: _ => [.fail "Broken"]
   | 'T' :: _ => [.fail "Timeout"]
@@ -307,10 +308,28 @@ def sessAttempts (firstPage afterUnprepared readRetried : Bool) : List Char → 
     if readRetried then [.fail "DbError:4608"] else .retry :: sessAttempts firstPage false true rest
   | 'o' :: _ => [.fail "DbError:4097"]
   | 'r' :: _ => [.fail "DbError:4608"]
+  | 'W' :: _ => [.fail "DbError:4352"]
   | 's' :: _ => [.fail "DbError:0"]
   | 'c' :: _ => [.fail "Broken"]
   | 'T' :: _ => [.fail "Timeout"]
   | 'v' :: _ => if firstPage then [.ignore] else [.fail "UnexpectedResponse"]
   | _ :: rest => sessAttempts firstPage afterUnprepared readRetried rest
+
+/-! ### The session pager with `DowngradingConsistencyRetryPolicy` on an idempotent statement
+
+Only the faults the harness scripts for this family: `W` = WriteTimeout of write type SIMPLE with
+`received > 0`, which the policy answers with `IgnoreWriteError` (downgrading_consistency.rs 151-163)
+- the decision that makes `query_remaining_pages` return silently (pager.rs 220-226) and
+`query_first_page` hand out an empty page with `NoMorePages` (278-290); `o` Overloaded (RetryNextTarget,
+plan exhausted: final); `u` as before; `d` harmless. -/
+def dgAttempts (afterUnprepared : Bool) : List Char → List Attempt
+  | [] => [.ok]
+  | 'u' :: rest =>
+    if afterUnprepared then [.fail "DbError:9472"] else .retry :: dgAttempts true rest
+  | 'W' :: _ => [.ignore]
+  | 'o' :: _ => [.fail "DbError:4097"]
+  | _ :: rest => dgAttempts afterUnprepared rest
+
+def dgSupported (cs : List Char) : Bool := cs.all fun c => c == 'u' || c == 'W' || c == 'o' || c == 'd'
 
 end ScyllaVerif.Pager
